@@ -36,6 +36,9 @@ type Case struct {
 	Chunk     uint32  `json:"chunk"`
 	Streams   int     `json:"streams"`
 	Conns     int     `json:"conns"`
+	// SmallThr: the sender's small-file threshold (0 = default 4 MiB); files above it take the
+	// scheduler's weighted path
+	SmallThr int64 `json:"small_threshold,omitempty"`
 	// ChunkSeq: the chunk size the sender's parameter source answers at its k-th call (the last
 	// value sticks): parameters are resolved once at the start and once per file
 	ChunkSeq []uint32 `json:"chunk_seq,omitempty"`
@@ -183,6 +186,9 @@ func sendOpts(p *Prepared) transfer.Options {
 	o := transfer.Options{ChunkSize: p.Case.Chunk, ParallelFiles: p.Case.Streams, Resume: !p.Case.SendNoRes, ResumeVerifyTail: p.Case.Tail}
 	if p.Resolve != nil {
 		o.ResolveFilePath = p.Resolve
+	}
+	if p.Case.SmallThr > 0 {
+		o.SmallThreshold = p.Case.SmallThr
 	}
 	if seq := p.Case.ChunkSeq; len(seq) > 0 {
 		k := 0
